@@ -256,6 +256,8 @@ class Builtins:
         return [Res(st, VBuiltin(f"{m}.{name}"))]
 
     def value_getattr(self, st, v, name):
+        if isinstance(v, VOpq) and v.tag == "function" and name == "__name__":
+            return [Res(st, VStr(z3.Function("fn_name", core.Opq, core.StrS)(v.t)))]
         if isinstance(v, VOpq) and v.tag in ("function", "attr:__code__") and name in ("__code__", "co_code", "func_code", "__name__"):
             if name == "func_code":
                 return self.X.raise_(st, "AttributeError", "func_code")
@@ -978,6 +980,13 @@ class Builtins:
                 return z3.BoolVal(False)
             if n == "numbers.Real":
                 return z3.BoolVal(isinstance(v, (VFl, VInt, VBool)))
+            if n in ("numbers.Number", "numbers.Complex"):
+                if isinstance(v, (VFl, VInt, VBool)):
+                    return z3.BoolVal(True)
+                if isinstance(v, VOpq) and v.tag == "other":
+                    # an arbitrary object returned by a user function may be a non-real number (complex)
+                    return z3.Function("opq_is_number", core.Opq, z3.BoolSort())(v.t)
+                return z3.BoolVal(False)
             if n == "type.str":
                 return z3.BoolVal(isinstance(v, VStr))
             if n == "type.bool":
@@ -1031,12 +1040,21 @@ class Builtins:
         expr = o.fields.get("expr")
         if isinstance(expr, VNone):
             return X.raise_(st, "TypeError", "immutable container cannot be filled")
-        if len(args) != 1 or kwargs:
+        if kwargs:
+            raise Unsupported("user function arity")
+        g = st.heap.get("__globals__", {})
+        if fv.oid == g.get("identity") and len(args) == 1:
+            return [Res(st, args[0])]
+        if not isinstance(expr, VOpq):
+            raise Unsupported("user function expr")
+        return self.apply_userfn(st, expr.t, args)
+
+    def apply_userfn(self, st, e, args):
+        """A-USERFN: the result of applying user function e is a deterministic function of its argument"""
+        X = self.X
+        if len(args) != 1:
             raise Unsupported("user function arity")
         arg = args[0]
-        g = st.heap.get("__globals__", {})
-        if fv.oid == g.get("identity"):
-            return [Res(st, arg)]
         if isinstance(arg, VOpq) and arg.tag == "datum":
             d = arg.t
         elif self.num(arg) is not None:
@@ -1044,9 +1062,6 @@ class Builtins:
             d = datum_of_real(fl.r)
         else:
             raise Unsupported(f"user function argument {arg!r}")
-        if not isinstance(expr, VOpq):
-            raise Unsupported("user function expr")
-        e = expr.t
         kinds = X.hooks.get("userfn_kinds", ["raise", "num", "bool", "str", "none", "other"])
         out = []
         kk = uf_kind(e, d)
@@ -1079,8 +1094,10 @@ class Builtins:
         return out
 
     def call_opaque(self, st, fv, args, kwargs):
-        if fv.tag == "factory":
-            raise Unsupported("call of factory object")
+        if fv.tag == "function":
+            if kwargs:
+                raise Unsupported("keyword arguments to a user function")
+            return self.apply_userfn(st, fv.t, args)
         raise Unsupported(f"call of opaque {fv.tag}")
 
     # ------------------------------------------------------------------ builtin calls
